@@ -24,15 +24,23 @@ type Limits struct {
 	MaxIncludeDepth  int
 }
 
+// cacheEntry is the parsed form of one included file. Its own include
+// directives are resolved again on every load, so a cache hit gives the same
+// result as reading the file.
+type cacheEntry struct {
+	journal   *ast.Journal
+	parseErrs []LoadError
+}
+
 type Loader struct {
 	mu     sync.RWMutex
-	cache  map[string]*ast.Journal
+	cache  map[string]cacheEntry
 	limits Limits
 }
 
 func NewLoader() *Loader {
 	return &Loader{
-		cache:  make(map[string]*ast.Journal),
+		cache:  make(map[string]cacheEntry),
 		limits: DefaultLimits(),
 	}
 }
@@ -124,23 +132,33 @@ func newLoadState() *loadState {
 	}
 }
 
-func (l *Loader) loadWithContent(path, content string, state *loadState, depth int) (*ResolvedJournal, []LoadError) {
-	var errors []LoadError
-
+func parseFile(path, content string) cacheEntry {
 	journal, parseErrs := parser.Parse(content)
+	entry := cacheEntry{journal: journal}
 	for _, e := range parseErrs {
 		pos := ast.Position{
 			Line:   e.Pos.Line,
 			Column: e.Pos.Column,
 			Offset: e.Pos.Offset,
 		}
-		errors = append(errors, LoadError{
+		entry.parseErrs = append(entry.parseErrs, LoadError{
 			Kind:    ErrorParseError,
 			Path:    path,
 			Message: e.Message,
 			Range:   ast.Range{Start: pos, End: pos},
 		})
 	}
+	return entry
+}
+
+func (l *Loader) loadWithContent(path, content string, state *loadState, depth int) (*ResolvedJournal, []LoadError) {
+	return l.resolveIncludes(path, parseFile(path, content), state, depth)
+}
+
+func (l *Loader) resolveIncludes(path string, entry cacheEntry, state *loadState, depth int) (*ResolvedJournal, []LoadError) {
+	var errors []LoadError
+	errors = append(errors, entry.parseErrs...)
+	journal := entry.journal
 
 	result := NewResolvedJournal(journal)
 	state.ancestors[path] = true
@@ -220,12 +238,12 @@ func (l *Loader) loadSingleInclude(
 	}
 
 	l.mu.RLock()
-	cached, ok := l.cache[includePath]
+	entry, ok := l.cache[includePath]
 	l.mu.RUnlock()
 	if ok {
-		state.loaded[includePath] = true
-		result.Files[includePath] = cached
-		result.FileOrder = append(result.FileOrder, includePath)
+		subResult, subErrors := l.resolveIncludes(includePath, entry, state, depth+1)
+		errors = append(errors, subErrors...)
+		mergeIncluded(result, includePath, subResult)
 		return errors
 	}
 
@@ -261,20 +279,28 @@ func (l *Loader) loadSingleInclude(
 		return errors
 	}
 
-	subResult, subErrors := l.loadWithContent(includePath, string(incContent), state, depth+1)
-	errors = append(errors, subErrors...)
-
-	if subResult != nil && subResult.Primary != nil {
+	entry = parseFile(includePath, string(incContent))
+	if entry.journal != nil {
 		l.mu.Lock()
-		l.cache[includePath] = subResult.Primary
+		l.cache[includePath] = entry
 		l.mu.Unlock()
-		result.Files[includePath] = subResult.Primary
-		result.FileOrder = append(result.FileOrder, includePath)
-		maps.Copy(result.Files, subResult.Files)
-		result.FileOrder = append(result.FileOrder, subResult.FileOrder...)
 	}
 
+	subResult, subErrors := l.resolveIncludes(includePath, entry, state, depth+1)
+	errors = append(errors, subErrors...)
+	mergeIncluded(result, includePath, subResult)
+
 	return errors
+}
+
+func mergeIncluded(result *ResolvedJournal, includePath string, subResult *ResolvedJournal) {
+	if subResult == nil || subResult.Primary == nil {
+		return
+	}
+	result.Files[includePath] = subResult.Primary
+	result.FileOrder = append(result.FileOrder, includePath)
+	maps.Copy(result.Files, subResult.Files)
+	result.FileOrder = append(result.FileOrder, subResult.FileOrder...)
 }
 
 func (l *Loader) expandGlob(basePath, pattern string) ([]string, error) {
@@ -311,7 +337,7 @@ func (l *Loader) expandGlob(basePath, pattern string) ([]string, error) {
 func (l *Loader) ClearCache() {
 	l.mu.Lock()
 	defer l.mu.Unlock()
-	l.cache = make(map[string]*ast.Journal)
+	l.cache = make(map[string]cacheEntry)
 }
 
 func (l *Loader) InvalidateFile(path string) {
